@@ -385,6 +385,17 @@ def gen(srcs):
         '{ async move { self.block_source.get_block(&header.block_hash).await?.validate(header.block_hash) } }', 'poll.rs ChainPoller::fetch_block')
     pin(body_of(poll, 'get_header', after='impl<B: Deref<Target = T> + Sized + Send + Sync, T: BlockSource + ?Sized> ChainPoller'),
         '{ Box::pin(async move { self.block_source.get_header(block_hash, height_hint).await?.validate(*block_hash) }) }', 'poll.rs ChainPoller::get_header')
+    # ---- lightning/src/chain/mod.rs `impl Listen for (T, U)`: the tuple adapter the block-sync docs recommend ----------------
+    cm = norm(strip_comments(srcs['lightning/src/chain/mod.rs']))
+    m = re.search(r'Listen for \(T, U\) where T::Target: Listen, U::Target: Listen, \{ '
+                  r'fn filtered_block_connected\(&self, header: &Header, txdata: &TransactionData, height: u32\) \{ '
+                  r'self\.(\d)\.filtered_block_connected\(header, txdata, height\); self\.(\d)\.filtered_block_connected\(header, txdata, height\); \} '
+                  r'fn blocks_disconnected\(&self, fork_point: BlockLocator\) \{ self\.(\d)\.blocks_disconnected\(fork_point\); self\.(\d)\.blocks_disconnected\(fork_point\); \} \}', cm)
+    if not m: raise Bad('chain/mod.rs: `impl Listen for (T, U)` no longer forwards each notification once to each component (whole impl pinned)')
+    d('chain/mod.rs `impl Listen for (T, U)`: components in the order filtered_block_connected (and block_connected through the trait default) reaches them',
+      'def tupleConnectOrder : List Nat := [%s, %s]' % (m.group(1), m.group(2)))
+    d('chain/mod.rs `impl Listen for (T, U)`: components in the order blocks_disconnected reaches them',
+      'def tupleDisconnectOrder : List Nat := [%s, %s]' % (m.group(3), m.group(4)))
     m = re.search(r'#\[cfg\(not\(test\)\)\] const MAX_BLOCKS_AT_ONCE: usize = ([0-9_ *+]+);', b)
     if not m: raise Bad('init.rs: #[cfg(not(test))] const MAX_BLOCKS_AT_ONCE not found')
     expr = m.group(1).replace('_', '').strip()
@@ -407,6 +418,9 @@ def main():
     for f, pat, what in ANCHORS:
         if not re.search(pat, norm(strip_comments(srcs[f])), re.S):
             fail('%s: expected shape not found: %s' % (f, what))
+    p = os.path.join(REPO, 'lightning/src/chain/mod.rs')
+    if not os.path.exists(p): fail('missing ' + p)
+    srcs['lightning/src/chain/mod.rs'] = open(p).read()
     try:
         D, expr, val = gen(srcs)
     except Bad as ex:
